@@ -37,6 +37,9 @@ def main():
         schema.list(schema.str.alphabet("1223334444")).len(3), schema.dict({"k": schema.str.alphabet("mississippi").len(4)}),
         schema.bytes, schema.list([schema.int, schema.str.alphabet("aab"), ...]),
     ]
+    from harness import custom
+    # custom types may use every primitive of the generator's Random (shuffle_list is used by nothing built in)
+    else_directed += [custom.DeckSchema(), schema.dict({"deck": custom.DeckSchema(), "n": schema.int}), schema.list(custom.DeckSchema()).len(2)]
     if not with_neg:
         schemas = else_directed[:3] + schemas[: n // 2] + else_directed[3:] + schemas[n // 2:]
     if with_neg:
